@@ -372,7 +372,7 @@ func TestC05Nested(t *testing.T) {
 		}
 		if rec.Known("C05-F1") && len(out.CohortRisk) > 0 {
 			switch out.Symptom {
-			case "missing-request", "not-complete", "extra-request", "flows", "ends", "errors":
+			case "missing-request", "not-complete", "extra-request", "flows", "ends", "errors", "complete-early":
 				rec.KnownHit("TestC05Nested", "C05-F1", hash)
 				return
 			}
